@@ -36,4 +36,16 @@ TEXT = {
   "note": "In-package test (package exec) through the overlay; combiners are commutative and associative; private TMPDIR per process makes the spill-directory check exact.",
   "technique": "bounded-exhaustive enumeration + property-based testing (rapid) against a map model",
  },
+ "C06": {
+  "text": "Complete enumeration of the failure matrix: call site {reader, writer, scan callback, map, filter, flatmap, fold, reduce combiner with keys repeated inside a shard, reduce combiner with keys shared only across shards, partitioner} x applicable mode {error, temporary error, panic, out-of-range partition} x {persistent, one-shot} x position {first row, row 128, last row, end-of-stream} x executor {local, bigmachine test system, bigmachine with machine combiners} = 360 cells, each run in a disposable child process that reports START/DONE per cell so that a crash of the driver process is attributed to the cell in flight. Oracle: persistent failure => non-nil error carrying the injected message for reader/writer errors and every panic, no hang, bounded re-invocation, process survives, never success with wrong rows; one-shot temporary failure => success with the reference rows; a later run in the same session is correct. Thorough adds rapid-generated cells with arbitrary positions, shard/row counts and vector sizes.",
+  "design_ref": "DESIGN.md 4 C06, 2.4",
+  "note": "Workers of the test system run in-process, so a panic escaping a worker kills the test process like a driver crash would; both are reported. 'Never hangs' is a 120 s budget per cell (cells take milliseconds to seconds once probation/back-off waits are scaled to milliseconds through exec.ProbationTimeout and the retry-policy hook).",
+  "technique": "exhaustive fault-injection matrix over generated programs, child-process isolation; rapid for the unbounded dimensions",
+ },
+ "C20": {
+  "text": "Scope laws: rapid histories of Incr / concurrent Incr / Merge / Reset(other) / Reset(nil) / gob round trips (alone and as a struct field) over 4 scopes and 5 registered counters, compared after every step with an integer-vector model. End to end: progen programs whose generated functions take the task context and increment two registered counters are run on the local executor and on the bigmachine test system (with and without machine combiners); Counter.Value(result.Scope()) must equal the number of invocations the reference evaluation performs (and twice that for the second counter), and the rows must equal the reference.",
+  "design_ref": "DESIGN.md 4 C20",
+  "note": "Programs for the end-to-end part have no Head and no shared sub-slices so that invocation counts are fixed by the program; reduce combiners and partition functions do not count (their call counts depend on the strategy). Nothing is claimed about two scopes that both stay in use after Reset (the source is retired). Known finding: a counting Reduce combiner fails the run (excluded by construction, one canonical instance executed per run).",
+  "technique": "stateful property-based testing against a model + differential end-to-end check against the reference evaluator",
+ },
 }
